@@ -367,6 +367,10 @@ def double_boundary(sx):
         return
     rf = [tuple(int(x) for x in f) for f in out.faces]
     nv = len(out.vertices)
+    # every triangle with a corner that belongs to no other face is split once from its centre (+1 vertex, +2 faces)
+    n_split = sum(1 for F in faces if len(F) == 3 and any(sum(1 for G in faces if v in G) == 1 for v in F))
+    sx.check((nv, len(rf)) == (V + n_split, len(faces) + 2 * n_split), "documented element counts after split_double_boundary_edges_triangles",
+             detail="got (V,F)=%s expected %s" % ((nv, len(rf)), (V + n_split, len(faces) + 2 * n_split)))
     sx.check(bool(out.is_triangular()) == all(len(f) == 3 for f in rf) and bool(out.is_quad()) == all(len(f) == 4 for f in rf),
              "is_triangular / is_quad of the returned mesh describe its faces")
     # the mesh passed in: unchanged, or equal to the result in every answer
